@@ -8,6 +8,7 @@ EXTENDS MC_C08, Json
 
 Outcome == [case |-> [endpoint |-> c.endpoint, method |-> c.method, disk |-> c.disk, payload |-> c.payload,
                       decodable |-> c.decodable, badb64 |-> c.badb64, fault |-> c.fault],
+            n |-> c.n, prev |-> c.prev, exempt |-> p.exempt,
             code |-> p.code, disk |-> disk, served |-> Observed, violated |-> viol]
 
 Emit == (pc = "done") => PrintT(<<"VH", ToJson(Outcome)>>)
